@@ -1,39 +1,10 @@
-"""Per-property registry: what is claimed, at which level, with which note; and the
-reason recorded in MANIFEST.not_applicable for every property not claimed."""
-HOOK_COMMITS = []
-NOTES = ("Technique family: contract-based deductive verification of the real code. Engine A = CBMC dfcc contracts; "
-         "Engine B = astvc (own VC generator over clang's AST, z3/sympy back ends). Bounded units are listed apart in the evidence "
-         "and never counted as proved. exit 2 + UNDECIDED lines = tool limit / extraction break, never a violation.")
-WIP = "no contract-sized unit built for this property yet (work in progress; see DESIGN.md §4)"
-PROPS = {
- "C05": {"claimed": True, "engine": "A+B", "level": "proof",
-         "technique": "CBMC dfcc contracts on real src/Var.c and on padfstring cut from the Fortran glue; own VC generator (clang AST, STL model, z3) for the table class",
-         "text": "Variant copy/clear discipline of Var.c (function contracts enforced by goto-instrument --dfcc for all inputs); CSelectedOutput against its representation invariant: "
-                 "GetRowCount = (cols ? rows+1 : 0), GetColCount, Get(row,col) returns VR_INVALIDROW/VR_INVALIDCOL in an error-typed VAR for every out-of-range index, row 0 = heading, else cell (row-1,col), table unchanged, "
-                 "no vector index out of range; EndRow pads every short column to exactly the new row count (never-punched cells are default = empty); PushBack appends a padded column for a new key and maps it to the new index, "
-                 "or fills the open row's cell, keeping the invariant; per-user-number switch look-ups; both fpunchf_user overloads send value i to heading i or to the same synthesized column; padfstring blank-pads exactly len bytes. "
-                 "printf rendering, file bytes, punch order of the engine and tidy_punch are NOT decided.",
-         "note": "Trusted: CBMC 6.11 and its C library models; Var.c read as C; astvc + clang AST + z3; STL model of vector/map (element identity abstract). String-content units (VarAllocString, VarCopy with string source, padfstring) are bounded and "
-                 "listed apart. Known finding printed on every run: get_sel_out_string_on ignores its argument (pinned by an existing test)."},
- "C07": {"claimed": True, "engine": "B", "level": "other",
-         "technique": "generated per-member reset obligations from symbolic execution of the unload sequence over clang's AST",
-         "text": "One generated obligation per data member of class Phreeqc (593) and class IPhreeqc (49): after the unload sequence "
-                 "(clean_up + clean-up callees, init, initialize + init callees; IPhreeqc::UnLoadDatabase) executed from an arbitrary pre-state the member's value contains "
-                 "no pre-state symbol (scalars), or the container is cleared/reassigned; survivors named by the property must not be written. Catches a missing or "
-                 "mis-ordered reset line and a new member without one. Level 'other': term inspection, not a solver proof; behavioural equality with a fresh instance "
-                 "for all follow-up inputs is NOT decided.",
-         "note": "Calls other than the inlined callees are credited with nothing and assumed not to dirty members; loops with symbolic bounds are skipped. "
-                 "26+16 members are exempt with a written-before-read justification and 58 container/scratch members are dropped (not reset at the pinned commit, "
-                 "observability undecided): contracts/B/reset_exempt.json. Three genuine defects found by these obligations were repaired (known_findings.json)."},
- "C19": {"claimed": True, "engine": "B", "level": "proof",
-         "technique": "own VC generator over clang AST: iteration/statement contracts on isolated loops, sympy normalisation, z3",
-         "text": "Statement/iteration contracts on the loops of both Phreeqc::calc_PR functions, each executed from an arbitrary state: per gas a = 0.457235 R^2 Tc^2/Pc, b = 0.077796 R Tc/Pc, "
-                 "alpha = (1+kappa(1-sqrt(T/Tc)))^2 re-evaluated at the current temperature (representation invariant on the cached values), mole fraction = moles/sum, "
-                 "P = RT/(Vm-b) - a_alpha/(Vm^2+2bVm-b^2), partial pressure = x*P, ln(phi) equals the Peng-Robinson fugacity equation clamped to [-4.6,4.44], phi = exp, si_f = ln(phi)/ln10, "
-                 "absent gas: p=0, phi=1; only that gas's fields are written. Root selection in the three-root region, fixed-pressure existence, the mixing sums and the solver coupling are NOT decided.",
-         "note": "Doubles as reals; log/exp/sqrt uninterpreted; literals 2.828427/2.41421356/0.41421356 checked against 2sqrt2, 1+sqrt2, sqrt2-1 at 1e-6; std::vector model; the surrounding function is not executed (loops are isolated)."},
- "C06": {"na_reason": "quantifies over thread schedules and bitwise reproducibility; code contracts and the VC generator are sequential and read doubles as reals; "
-                      "the sequential remainder (unique ids, lock bracketing) belongs to C13 and says nothing about races"},
-}
+"""Per-property registry (data in registry.json): what is claimed, at which level, with which note; and the
+reason recorded in MANIFEST.not_applicable for every property not claimed.  Edit with tools/reg.py."""
+import json, os
+_d = json.load(open(os.path.join(os.path.dirname(os.path.abspath(__file__)), "registry.json")))
+HOOK_COMMITS = _d["hook_commits"]
+NOTES = _d["notes"]
+WIP = "no contract-sized unit built for this property yet (work in progress; see DESIGN.md section 4)"
+PROPS = dict(_d["props"])
 for _p in ["C%02d" % i for i in range(1, 21)]:
     PROPS.setdefault(_p, {"na_reason": WIP})
